@@ -45,7 +45,7 @@
 extern "C" {
 #include "matrixssl/matrixsslApi.h"
 void c20_entropy_seed(uint64_t run_seed, uint32_t thread_index);
-void c20_yield_config(uint64_t yield_seed, uint32_t thread_index, uint32_t yield_per_1024, uint32_t sleep_per_1024);
+void c20_yield_config(uint64_t yield_seed, uint32_t thread_index, uint32_t yield_per_1024, uint32_t sleep_per_1024, uint32_t unlock_sleep_per_1024);
 void c20_maybe_yield(void);
 uint64_t c20_yield_count(void);
 uint64_t c20_lock_calls(void);
@@ -84,6 +84,13 @@ struct RawReport {
 RawReport g_raw[MAX_REPORTS];
 std::atomic<int> g_nraw{ 0 };
 std::atomic<int> g_raw_dropped{ 0 };
+// A worker thread that raised a report parks inside the hook (i.e. BEFORE it returns into the racing library code) until
+// the main thread has looked at the report: an unknown signature ends the process at once with the failing tape, so the
+// race never gets the chance to corrupt memory and wedge the process; a known finding lets the worker continue.
+std::atomic<int> g_pending{ 0 };      // 1 + index of the report waiting for the main thread's verdict
+std::atomic<int> g_release{ 0 };
+std::atomic<int> g_run_active{ 0 };   // workers are running and the main thread is in its watchdog loop
+pthread_t g_main_thread;
 }
 
 // Called by the TSan runtime (report mutex held, so calls are serialized) after it printed a report.
@@ -103,6 +110,11 @@ extern "C" __attribute__((no_sanitize("thread"))) void __tsan_on_report(void *re
     }
     for (int k = 0; k < r.nstack; k++) __tsan_get_report_stack(rep, (unsigned long) k, r.stack_pc[k], MAX_PCS);
     g_nraw.store(i + 1, std::memory_order_relaxed);
+    if (g_run_active.load(std::memory_order_acquire) && !pthread_equal(pthread_self(), g_main_thread)) {
+        g_release.store(0, std::memory_order_relaxed);
+        g_pending.store(i + 1, std::memory_order_release);
+        while (!g_release.load(std::memory_order_acquire)) { struct timespec ts = { 0, 200000 }; syscall(SYS_nanosleep, &ts, (void *) 0); }
+    }
 }
 
 namespace {
@@ -320,7 +332,7 @@ struct Conn {
 // ------------------------------------------------------------------------------------------------ worker
 struct Worker {
     int idx = 0; std::vector<Op> ops; std::vector<Ev> log; Conn *held = nullptr;
-    uint64_t run_seed = 0, yield_seed = 0; uint32_t yp = 0, sp = 0;
+    uint64_t run_seed = 0, yield_seed = 0; uint32_t yp = 0, sp = 0, up = 0;
     pthread_t th; pthread_barrier_t *start = nullptr;
     std::atomic<uint64_t> progress{ 0 }; std::atomic<int> cur_op{ -1 }; std::atomic<int> tid{ 0 }; std::atomic<int> done{ 0 };
     uint64_t yields = 0, lock_calls = 0; std::string fatal;
@@ -467,7 +479,7 @@ void *worker_main(void *arg) {
     Worker &w = *(Worker *) arg;
     w.tid.store((int) syscall(SYS_gettid), std::memory_order_relaxed);
     c20_entropy_seed(w.run_seed, (uint32_t) w.idx);
-    c20_yield_config(w.yield_seed, (uint32_t) w.idx, w.yp, w.sp);
+    c20_yield_config(w.yield_seed, (uint32_t) w.idx, w.yp, w.sp, w.up);
     w.pat = w.run_seed * 31 + (uint64_t) w.idx;
     pthread_barrier_wait(w.start);
     for (size_t i = 0; i < w.ops.size() && w.fatal.empty(); i++) {
@@ -483,7 +495,7 @@ void *worker_main(void *arg) {
     }
     if (w.held) { do_close(w, w.held, false); w.held = nullptr; }
     w.yields = c20_yield_count(); w.lock_calls = c20_lock_calls();
-    c20_yield_config(0, 0, 0, 0);
+    c20_yield_config(0, 0, 0, 0, 0);
     w.cur_op.store(1000, std::memory_order_relaxed);
     w.done.store(1, std::memory_order_release);
     return nullptr;
@@ -636,7 +648,7 @@ char task_state(int tid) {
     char *r = strrchr(buf, ')'); return (r && r[1] == ' ' && r[2]) ? r[2] : '?';
 }
 
-struct Program { int N = 2; int nseeds = 2; uint32_t yp = 0, sp = 0; int nslots = 1; std::vector<std::vector<Op>> ops; uint64_t seed = 0; };
+struct Program { int N = 2; int nseeds = 2; uint32_t yp = 0, sp = 0, up = 0; int nslots = 1; std::vector<std::vector<Op>> ops; uint64_t seed = 0; };
 
 Program generate(vf::Tape &t) {
     Program p;
@@ -644,7 +656,8 @@ Program generate(vf::Tape &t) {
     p.N = NS[t.below(3)];
     p.nseeds = 2 + (int) t.below(3);
     static const uint32_t YP[] = { 0, 8, 32, 96 }, SP[] = { 0, 8, 32, 64 };
-    p.yp = YP[t.below(4)]; p.sp = SP[t.below(4)];
+    static const uint32_t UP[] = { 0, 64, 256, 512 };
+    p.yp = YP[t.below(4)]; p.sp = SP[t.below(4)]; p.up = UP[t.below(4)];
     p.nslots = 1 + (int) t.below(4);
     p.seed = t.u16();
     int max_ops = p.N == 8 ? 3 : p.N == 4 ? 6 : 10;      // <= 24 operations per program
@@ -669,7 +682,7 @@ Program generate(vf::Tape &t) {
     return p;
 }
 std::string describe(const Program &p) {
-    std::string s = fmt("N=%d slots=%d yield=%u/%u per 1024 seed=%llu ops:", p.N, p.nslots, p.yp, p.sp, (unsigned long long) p.seed);
+    std::string s = fmt("N=%d slots=%d yield=%u/%u/%u per 1024 seed=%llu ops:", p.N, p.nslots, p.yp, p.sp, p.up, (unsigned long long) p.seed);
     for (int i = 0; i < p.N; i++) {
         s += fmt(" T%d[", i);
         for (size_t k = 0; k < p.ops[i].size(); k++) {
@@ -682,6 +695,46 @@ std::string describe(const Program &p) {
     return s;
 }
 
+std::string one_line(std::string s) { for (auto &ch : s) if (ch == '\n') ch = ' '; return s; }
+
+// An unknown ThreadSanitizer report: end the process NOW in the way the engine ends a failing campaign / replay (failing tape,
+// statistics, "REPLAY ... sig=" / "VF-FAIL sig=" line for bin/check), without giving the racing threads another instruction.
+[[noreturn]] void fatal_report(const Report &r, const std::string &desc, bool replay) {
+    vf::Driver &d = vf::drv();
+    std::string detail = one_line(r.text + " " + desc); if (detail.size() > 6000) detail.resize(6000);
+    fprintf(stderr, "[c20] %s -> signature %s\n%s", desc.c_str(), r.sig.c_str(), r.text.c_str());
+    if (replay) printf("REPLAY tape sig=%s known=0 detail=%s\n", r.sig.c_str(), detail.c_str());
+    else printf("VF-FAIL sig=%s detail=%s\n", r.sig.c_str(), detail.c_str());
+    d.fail_sig = r.sig; d.fail_detail = detail; d.violations = 1; d.ctx.evaluations++;
+    if (!replay && !d.out_path.empty() && d.cur) { d.fail_replay = d.out_path + ".fail.tape"; vf::write_file(d.fail_replay, d.cur, d.cur_len); }
+    vf::write_stats("fail");
+    fflush(NULL);
+    _exit(1);
+}
+
+// Last line of defence against a wedged process (memory corrupted by a race can leave the sanitizer runtime or the engine's
+// alarm handler stuck): a thread that only sleeps, looks at a clock and, long after the engine's alarm should have fired, saves
+// the current tape as <out>.hang.tape and kills the process.
+std::atomic<uint64_t> g_case_start_ms{ 0 };
+uint64_t now_ms() { struct timespec ts; clock_gettime(CLOCK_MONOTONIC, &ts); return (uint64_t) ts.tv_sec * 1000 + (uint64_t) ts.tv_nsec / 1000000; }
+void *last_resort_main(void *) {
+    for (;;) {
+        struct timespec ts = { 1, 0 }; syscall(SYS_nanosleep, &ts, (void *) 0);
+        uint64_t st = g_case_start_ms.load(std::memory_order_relaxed);
+        if (st && now_ms() - st > (uint64_t) (CASE_TIMEOUT_S + 25) * 1000) {
+            vf::Driver &d = vf::drv();
+            if (!d.out_path.empty() && d.cur) vf::write_file(d.out_path + ".hang.tape", d.cur, d.cur_len);
+            static const char msg[] = "[c20] process wedged past the case time limit: killed by the last-resort watchdog\n";
+            if (write(2, msg, sizeof msg - 1)) {}
+            kill(getpid(), SIGKILL);
+        }
+    }
+    return nullptr;
+}
+// TSan's exit code option covers both "a report was printed" and "the runtime died"; known findings must not change the exit
+// status, a crash must.  So TSAN_OPTIONS keeps a non-zero exitcode and a normal exit is finished here with the engine's status.
+void exit_with_engine_status() { fflush(NULL); _exit(vf::drv().violations ? 1 : 0); }
+
 // One execution of the program under one yield seed.  Throws vf::Fail (main thread) on an oracle violation.
 void run_once(const Program &p, int run_idx, uint64_t yield_seed, const std::string &desc0, RunStats &st, bool verbose, const vf::Ctx &ctx) {
     std::string desc = desc0 + fmt(" | run %d yield_seed=%llu", run_idx, (unsigned long long) yield_seed);
@@ -690,10 +743,11 @@ void run_once(const Program &p, int run_idx, uint64_t yield_seed, const std::str
     std::vector<Worker *> ws;
     for (int i = 0; i < p.N; i++) {
         Worker *w = new Worker; w->idx = i; w->ops = p.ops[i]; w->run_seed = p.seed * 1000003ULL + (uint64_t) run_idx * 7919 + g_clock.load(std::memory_order_relaxed);
-        w->yield_seed = yield_seed; w->yp = p.yp; w->sp = p.sp; w->start = &start; w->log.reserve(64);
+        w->yield_seed = yield_seed; w->yp = p.yp; w->sp = p.sp; w->up = p.up; w->start = &start; w->log.reserve(64);
         ws.push_back(w);
     }
     // worker threads must not receive the engine's SIGALRM (it has to interrupt the main thread)
+    g_run_active.store(1, std::memory_order_release);
     sigset_t block, old; sigemptyset(&block); sigaddset(&block, SIGALRM); pthread_sigmask(SIG_BLOCK, &block, &old);
     for (auto *w : ws) if (pthread_create(&w->th, NULL, worker_main, w) != 0) { fprintf(stderr, "[c20] pthread_create failed\n"); abort(); }
     pthread_sigmask(SIG_SETMASK, &old, NULL);
@@ -702,7 +756,12 @@ void run_once(const Program &p, int run_idx, uint64_t yield_seed, const std::str
     for (;;) {
         bool all_done = true; for (auto *w : ws) if (!w->done.load(std::memory_order_acquire)) all_done = false;
         if (all_done) break;
-        struct timespec ts = { 0, 2000000 }; nanosleep(&ts, NULL);
+        if (int pi = g_pending.load(std::memory_order_acquire)) {
+            Report r = render(g_raw[pi - 1]);
+            if (!ctx.is_known(r.sig)) fatal_report(r, desc, verbose);
+            g_pending.store(0, std::memory_order_relaxed); g_release.store(1, std::memory_order_release);   // known finding: carry on, counted after the run
+        }
+        struct timespec ts = { 0, 1000000 }; nanosleep(&ts, NULL);
         double now = vf::now_s();
         bool changed = false, blocked = true;
         for (int i = 0; i < p.N; i++) {
@@ -720,6 +779,7 @@ void run_once(const Program &p, int run_idx, uint64_t yield_seed, const std::str
         }
     }
     for (auto *w : ws) pthread_join(w->th, NULL);
+    g_run_active.store(0, std::memory_order_release);
     pthread_barrier_destroy(&start);
     struct Cleanup { std::vector<Worker *> &ws; ~Cleanup() { for (auto *w : ws) delete w; } } cleanup{ ws };
     // ---- leave the shared world in a normal state for the next run: empty slots, one ticket key
@@ -745,6 +805,8 @@ void run_once(const Program &p, int run_idx, uint64_t yield_seed, const std::str
 
 void prop(vf::Tape &t, vf::Ctx &c) {
     if (g_wedged) throw vf::Discard{};
+    g_case_start_ms.store(now_ms(), std::memory_order_relaxed);
+    struct CaseEnd { ~CaseEnd() { g_case_start_ms.store(0, std::memory_order_relaxed); } } case_end;
     Program p = generate(t);
     std::string desc = describe(p);
     if (c.verbose) fprintf(stderr, "case: %s\n", desc.c_str());
@@ -768,8 +830,8 @@ void prop(vf::Tape &t, vf::Ctx &c) {
             }
         } } tally{ c, st, p, done, desc };
     for (int r = 0; r < runs; r++) {
-        uint64_t ys = r == 0 && p.yp == 0 && p.sp == 0 ? 0 : (p.seed * 2654435761ULL + (uint64_t) r * 40503 + 1);
-        Program q = p; if (r >= p.nseeds) { q.yp = 32 + 16 * (uint32_t) (r % 5); q.sp = 16 + 8 * (uint32_t) (r % 7); }   // replay-only extra schedules
+        uint64_t ys = p.seed * 2654435761ULL + (uint64_t) r * 40503 + 1;
+        Program q = p; if (r >= p.nseeds) { q.yp = 32 + 16 * (uint32_t) (r % 5); q.sp = 16 + 8 * (uint32_t) (r % 7); q.up = 128 * (uint32_t) (1 + r % 4); }   // replay-only extra schedules
         run_once(q, r, ys, desc, st, c.verbose, c);
         done++;
     }
@@ -780,6 +842,11 @@ VF_TARGET("c20_concurrent", prop, 1024, CASE_TIMEOUT_S)
 
 namespace vf {
 void vf_global_init(int, char **) {
+    g_main_thread = pthread_self();
+    atexit(exit_with_engine_status);
+    { sigset_t block, old; sigemptyset(&block); sigaddset(&block, SIGALRM); pthread_sigmask(SIG_BLOCK, &block, &old);
+      pthread_t th; if (pthread_create(&th, NULL, last_resort_main, NULL) == 0) pthread_detach(th);
+      pthread_sigmask(SIG_SETMASK, &old, NULL); }
     c20_entropy_seed(20, 1000);
     if (matrixSslOpen() < 0) { fprintf(stderr, "[c20] matrixSslOpen failed\n"); abort(); }
     std::string d = verif_dir() + "/pki/";
